@@ -19,7 +19,7 @@ def gen_layout(rng):
         for s in subdirs[d]:
             order.append(d + "/" + s)
     units = {}
-    for name in rng.sample(["a.container", "b.container", "t@.container", "t@one.container", "v.volume"], rng.randint(1, 4)):
+    for name in rng.sample(["a.container", "b.container", "t@.container", "t@one.container", "v.volume", "t@blue@eu.container", "u@x.y.volume"], rng.randint(1, 5)):
         locs = rng.sample(order, rng.randint(1, min(2, len(order))))
         # conflicts only between different top-level dirs or parent/child (sibling order is unspecified)
         units[name] = sorted(set(locs), key=order.index)
@@ -57,7 +57,7 @@ def expected(order, units, dropins):
 
 
 def run(ctx):
-    ctx.rule = ("layouts of 1-3 search directories (QUADLET_UNIT_DIRS), each optionally with a subdirectory; 1-4 unit names (plain, template, template instance, volume) each placed in 1-2 "
+    ctx.rule = ("layouts of 1-3 search directories (QUADLET_UNIT_DIRS), each optionally with a subdirectory, in 30% of the layouts one of them a symbolic link (absolute or relative target) to the directory holding the files; 1-5 unit names (plain, template, template instance, an instance whose instance name contains @ or a dot, volume) each placed in 1-2 "
                 "directories; drop-in files (*.conf and a non-conf decoy) placed in <unit>.d and <base>@.<type>.d directories of arbitrary search directories; every file carries a marker (a label, and a PodmanArgs tag that shows the merge order); "
                 "run end to end with --dry-run; non-trivial = a name occurs twice or a drop-in lives in another search dir than its unit; distinct = distinct layouts")
     rng = ctx.rng
@@ -79,6 +79,13 @@ def run(ctx):
             for d in order:
                 files.setdefault(d + "/.keep", "")
             e2e.make_tree(root, files)
+            link = None
+            if rng.random() < 0.3:
+                # one configured search directory is a symbolic link to the directory that holds the files (absolute or relative target)
+                dk = rng.choice(dirs); link = rng.choice(["absolute", "relative"])
+                os.rename(os.path.join(root, dk), os.path.join(root, "real_" + dk))
+                os.symlink(os.path.join(root, "real_" + dk) if link == "absolute" else "real_" + dk, os.path.join(root, dk))
+                ctx.count("symlinked_search_dir:" + link)
             rc, out, err = e2e.run_quadlet([os.path.join(root, d) for d in dirs], os.path.join(root, "out"), dry_run=True)
             svcs = e2e.parse_dry_run(out)
             exp = expected(order, units, dropins)
@@ -88,7 +95,7 @@ def run(ctx):
             # one service per unit name
             names = [os.path.basename(p) for p in svcs]
             if len(names) != len(set(names)) or len(names) != len(units):
-                ctx.failures.append({"op": "e2e", "layout": [order, units], "what": "services %s for unit names %s" % (sorted(names), sorted(units)), "class": None})
+                ctx.failures.append({"op": "e2e", "layout": [order, units], "what": "services %s for unit names %s%s" % (sorted(names), sorted(units), " (a search directory is a %s symbolic link)" % link if link else ""), "class": None})
                 continue
             for name, (origin, marks) in exp.items():
                 stem = name.rsplit(".", 1)[0]
